@@ -103,6 +103,15 @@ OpSetPart(k) == /\ Map_ /\ Live /\ own[k] = "prog" /\ Val[k] \in keys
                 /\ Step("set_part", <<k>>, TRUE, own, cont, keys, copy, held)
 OpDelListing == /\ held.lists > 0 /\ Step("del_listing", <<>>, TRUE, own, cont, keys, copy, Drop("lists"))
 
+\* the program hands a container NULL where an object is expected (append / prepend / insert / insert_at on a list, insert on a
+\* vector - on an empty scratch container of the class under test and on one holding an element).
+\* Whether the call is accepted or refused is not stated here (E: C16 / C02-C04 speak about that); what IS stated is the
+\* ledger: nothing the program owns changes hands, and once the scratch container is deleted nothing is left behind.
+\* (Only the EMPTY scratch container is probed: on a non-empty linked or doubly linked container the sorted insert of NULL
+\* dereferences it in the unmodified library - NULL elements are outside the argument universe of every listed property.)
+NullCalls == {"append", "prepend", "insert", "insert_at"}      \* (set(key, NULL) on a map is outside every listed property: not probed)
+OpNullProbe(w, f) == /\ Live /\ Seq_ /\ Step("null_probe", <<w, f>>, TRUE, own, cont, keys, copy, held)
+
 (* both kinds *)
 OpIterNew   == /\ Live /\ held.iters < 1 /\ Step("iter_new", <<>>, TRUE, own, cont, keys, copy, Bump("iters"))
 OpIterDel   == /\ held.iters > 0 /\ Step("iter_del", <<>>, TRUE, own, cont, keys, copy, Drop("iters"))
@@ -120,6 +129,7 @@ Next == \/ \E h \in H : OpCreate(h) \/ OpTouch(h) \/ OpDelete(h) \/ OpGive(h) \/
                         \/ OpMapGet(h) \/ OpMapRemove(h) \/ OpSetSame(h) \/ OpSetPart(h)
         \/ \E k, v \in H : OpSet(k, v)
         \/ \E w \in {"keys", "values", "pairs"}, d \in Dest : OpListing(w, d)
+        \/ (\E w \in NullCalls : OpNullProbe(w, "empty"))
         \/ OpTakeFirst \/ OpToArray \/ OpFreeArray \/ OpDelPair \/ OpDelListing
         \/ OpIterNew \/ OpIterDel \/ OpDup \/ OpDelCopy \/ OpDone \/ OpDelCont \/ OpRenew
 Spec == Init /\ [][Next]_vars
